@@ -5,7 +5,7 @@
    dispatch (Call) and one action per piece of loop control between two events:
 
      DoBOL     Operator._mainOperate: interactAllBOL()
-     Call      Operator._interactAll: `halt = halt or interactMethod(*args)` for the next interface of the event
+     Call      Operator._interactAll: `halt = halt or interactMethod(args)` for the next interface of the event
      EndBOL    _mainOperate: startingCycle = r.p.cycle; enter `for cycle in range(startingCycle, nCycles)`
      EndBOC    _cycleLoop after interactAllBOC: `if halt: return False` (-> EOL), else first time node
      EndEN     _timeNodeLoop / _performTightCoupling after interactAllEveryNode: coupling off -> next node;
